@@ -9,7 +9,7 @@ def run(ctx):
         ctx.violations.append({"clause": "Model:" + inv, "what": "the reference split violates its own meta-property: " + mc.out[-1200:], "sites": []})
     L = 4 if ctx.quick else 5
     nsh = vlib.NCPU * (2 if ctx.quick else 12)
-    shards = [["exh", L, i, nsh] for i in range(nsh)] + [["rand", ctx.seed * 10 + i, 3000 if ctx.quick else 40000] for i in range(4)]
+    shards = [["exh", L, i, nsh] for i in range(nsh)] + [["rand", ctx.seed * 10 + i, 3000 if ctx.quick else 40000] for i in range(4)] + [["ports"]]
     total, distinct, bad, files = vlib.pattern_f(ctx, "san", "fn_uri", shards, "UriSplitRows", "UriSplitRows.cfg")
     ctx.violations += bad
     expected = 9 * sum(12 ** n for n in range(L + 1))
@@ -19,7 +19,7 @@ def run(ctx):
         "states": mc.distinct, "transitions": max(mc.generated, 1), "traces_validated_against_impl": total,
         "evaluations": total, "distinct_nontrivial": distinct,
         "rule": "targets = 9 prefix families {'', a, a:, a:/, a://, a://a@, a://[, //, /} x every string of length <= %d over {a : / @ ? # [ ] . 0 9 SP} through htp_parse_uri and, "
-                "when the request line can carry it, a real request (parsed_uri_raw + numeric port), plus seeded random compositions incl. arbitrary bytes; distinct = distinct (target, route) counted by TLC" % L,
+                "when the request line can carry it, a real request (parsed_uri_raw + numeric port), plus seeded random compositions incl. arbitrary bytes, plus 42 port texts (boundaries of 1..65535, leading zeros, signs / junk, digit strings equal to p + k * 2^16 / 2^31 / 2^32 / 2^63 / 2^64) in 5 target frames; distinct = distinct (target, route) counted by TLC" % L,
         "samples": samples, "exhaustive": True,
         "exhaustive_space": "9 prefix families x all suffixes of length <= %d over 12 symbols (direct route)" % L,
         "model": "UriSplitMC: Rejoin(Split(t)) = RTrim(t), SlashMeansNoAuthority, PortRange for the families with suffix length <= %d" % (3 if ctx.quick else 4),
